@@ -54,7 +54,7 @@ func c11Read(p string) ([]byte, bool) {
 
 func c11Mutating(op string) bool {
 	switch op {
-	case "open", "write", "sync", "close", "remove", "rename":
+	case "open", "write", "sync", "close", "remove", "rename", "truncate":
 		return true
 	}
 	return false
@@ -106,6 +106,8 @@ func (c *c11Run) render(from int) string {
 			it = append(it, "rm:"+w)
 		case "rename":
 			it = append(it, "rn:"+w+":"+c.which(o.op.Arg))
+		case "truncate":
+			it = append(it, fmt.Sprintf("tr:%s:%d", w, o.op.N))
 		}
 	}
 	if len(it) == 0 {
